@@ -182,7 +182,7 @@ for _prop in ("C01", "C02"):
             tk = zreal(su.T.val.at([(k,), ()]))
             return z3.And(su.dom.in_pred(row[:2], [tk]), row[2] == tk)
 
-        S.loop(PS + "._sample_params_dependent", 0, acc_points_loop(S, "sample_points", [("x", R2), ("t", R1)], su.n, 3, P, "dependent-loop"))
+        S.loop(PS + "._sample_params_dependent", 0, acc_points_loop(S, S.returned_local(PS + "._sample_params_dependent", "sample_points"), [("x", R2), ("t", R1)], su.n, 3, P, "dependent-loop"))
         smp = S.once(lambda: S.new(GS, su.dom.obj, n_points=su.n))
         pts = S.method(smp, "sample_points", su.params)
         su.check(S, _prop, pts)
@@ -379,7 +379,7 @@ for _prop in ("C01", "C02"):
             return z3.And(su.dom.in_pred(row[:2], [tk]), row[2] == tk, flt.value_terms(row[:2])[0])
 
         fq = RUS + "._sample_n_points_with_filter"
-        S.loop(fq, 0, acc_points_loop(S, "sample_points", [("x", R2), ("t", R1)], su.n, 3, lambda k, j, row: Pk(k, row), "parameter-loop"))
+        S.loop(fq, 0, acc_points_loop(S, S.returned_local(fq, "sample_points"), [("x", R2), ("t", R1)], su.n, 3, lambda k, j, row: Pk(k, row), "parameter-loop"))
         S.loop(fq, 1, filtered_points_loop(S, "new_sample_points", "num_of_new_points", {"iterations": lambda: S.int(core.fresh_name("iters"), 0), "new_points": lambda: None}, [("x", R2), ("t", R1)], 3, Pk, "rejection-loop", lambda env: zint(env.lookup("i")[1])))
         smp = S.new(RUS, su.dom.obj, n_points=su.n, filter_fn=flt)
         out = S.outcome(lambda: S.method(smp, "sample_points", su.params))
@@ -408,7 +408,7 @@ for _prop in ("C01", "C02"):
             return z3.And(su.dom.in_pred(row[:2], [tk]), row[2] == tk, flt.value_terms(row[:2])[0])
 
         Pk = lambda k, row: Pt(zreal(su.T.val.at([(k,), ()])), row)
-        S.loop(GS + "._sample_n_points_with_filter", 0, acc_points_loop(S, "sample_points", [("x", R2), ("t", R1)], su.n, 3, lambda k, j, row: Pk(k, row), "parameter-loop"))
+        S.loop(GS + "._sample_n_points_with_filter", 0, acc_points_loop(S, S.returned_local(GS + "._sample_n_points_with_filter", "sample_points"), [("x", R2), ("t", R1)], su.n, 3, lambda k, j, row: Pk(k, row), "parameter-loop"))
 
         def rus_contract(I_, fn, args, kwargs):
             env = I_.bind_args(fn, args, kwargs)
@@ -460,7 +460,7 @@ for _prop in ("C01", "C02", "C11"):
             return z3.And(su.dom.in_pred(row[:2], [tk] if su.dep else []), row[2] == tk)
 
         fq = GAUSS + "._sample_points"
-        S.loop(fq, 0, acc_points_loop(S, "sample_points", keys, su.n, ncols, lambda k, j, row: Pk(k, row), "parameter-loop"))
+        S.loop(fq, 0, acc_points_loop(S, S.returned_local(fq, "sample_points"), keys, su.n, ncols, lambda k, j, row: Pk(k, row), "parameter-loop"))
         S.loop(fq, 1, filtered_points_loop(S, "new_sample_points", "current_num_of_points", {"new_points": lambda: None}, keys, ncols, Pk, "proposal-loop", lambda env: zint(env.lookup("i")[1])))
         mean = S.once(lambda: [S.real("m0"), S.real("m1")])
         smp = S.once(lambda: S.new(GAUSS, su.dom.obj, su.n, list(mean), S.real("std")))
@@ -504,7 +504,7 @@ for _prop in ("C01", "C02"):
             tk = zreal(su.T.val.at([(k,), ()]))
             return z3.And(su.dom.in_pred(row[:2], [tk] if su.dep else []), row[2] == tk)
 
-        S.loop(LHS + "._sample_points", 0, acc_points_loop(S, "sample_points", keys, su.n, ncols, lambda k, j, row: Pk(k, row), "parameter-loop"))
+        S.loop(LHS + "._sample_points", 0, acc_points_loop(S, S.returned_local(LHS + "._sample_points", "sample_points"), keys, su.n, ncols, lambda k, j, row: Pk(k, row), "parameter-loop"))
         smp = S.once(lambda: S.new(LHS, su.dom.obj, su.n))
         pts = S.method(smp, "sample_points", su.params)
         su.check(S, _prop, pts)
@@ -530,7 +530,7 @@ def _lhs_strata_box(S):
         tk = zreal(su.T.val.at([(k,), ()]))
         return z3.And(su.dom.in_pred(row[:2], [tk]), row[2] == tk)
 
-    S.loop(LHS + "._sample_points", 0, acc_points_loop(S, "sample_points", keys, su.n, 3, lambda k, j, row: Pk(k, row), "parameter-loop"))
+    S.loop(LHS + "._sample_points", 0, acc_points_loop(S, S.returned_local(LHS + "._sample_points", "sample_points"), keys, su.n, 3, lambda k, j, row: Pk(k, row), "parameter-loop"))
     seen = {"box": None, "n": 0}
 
     def on_create(rec):
@@ -581,7 +581,7 @@ for _prop in ("C01", "C02"):
             def P(k, j, row):
                 return z3.And(prim.inset([row[0]], h.vals((k,))), row[1] == zreal(h.ptensor.val.at([(k,), ()])))
 
-            S.loop(PS + "._sample_params_dependent", 0, acc_points_loop(S, "sample_points", [("x", R1), ("t", R1)], n, 2, P, "dependent-loop"))
+            S.loop(PS + "._sample_params_dependent", 0, acc_points_loop(S, S.returned_local(PS + "._sample_params_dependent", "sample_points"), [("x", R1), ("t", R1)], n, 2, P, "dependent-loop"))
         smp = S.once(lambda: S.new(EXPS, h.dom, n, 2 if ex == "2" else 0.5))
         pts = S.method(smp, "sample_points", h.params)
         t = tensor_of(pts)
